@@ -1822,6 +1822,15 @@ def _unroll_record_objects(trees):
                             i += len(new)
                         else:
                             i += 1
+            # (a record chosen by a conditional expression is a record bound in each arm of an `if`)
+            for owner in ast.walk(F):
+                for fld in ("body", "orelse", "finalbody"):
+                    blk = getattr(owner, fld, None)
+                    if not (isinstance(blk, list) and blk and isinstance(blk[0], ast.stmt)):
+                        continue
+                    for k, s_ in enumerate(blk):
+                        if isinstance(s_, ast.Assign) and len(s_.targets) == 1 and isinstance(s_.targets[0], ast.Name) and isinstance(s_.value, ast.IfExp) and ctor(s_.value.body) is not None and ctor(s_.value.orelse) is not None:
+                            blk[k] = ast.fix_missing_locations(ast.copy_location(ast.If(test=s_.value.test, body=[ast.Assign(targets=[ast.Name(id=s_.targets[0].id, ctx=ast.Store())], value=s_.value.body)], orelse=[ast.Assign(targets=[ast.Name(id=s_.targets[0].id, ctx=ast.Store())], value=s_.value.orelse)]), s_))
             # 2. record locals (every binding of the name is a constructor call of one record class, possibly one per branch)
             cands = {}
             for x in ast.walk(F):
